@@ -332,14 +332,10 @@ func (s *EtcdStore) FetchTopicConfig(ctx context.Context, topic string) (*metada
 	if len(resp.Kvs) > 0 {
 		return DecodeTopicConfig(resp.Kvs[0].Value)
 	}
-	meta, err := s.metadata.Metadata(ctx, []string{topic})
-	if err != nil {
-		return nil, err
-	}
-	if len(meta.Topics) == 0 || meta.Topics[0].ErrorCode != 0 {
-		return nil, ErrUnknownTopic
-	}
-	return defaultTopicConfigFromTopic(&meta.Topics[0], int16(len(meta.Topics[0].Partitions))), nil
+	// Nothing persisted yet: answer like the in-memory store does, i.e. with the
+	// configuration recorded when the topic was created (its replication factor
+	// included), not with defaults derived from the partition count.
+	return s.metadata.FetchTopicConfig(ctx, topic)
 }
 
 // UpdateTopicConfig persists topic configuration into etcd.
@@ -373,6 +369,9 @@ func (s *EtcdStore) UpdateTopicConfig(ctx context.Context, cfg *metadatapb.Topic
 
 // CreatePartitions expands a topic and writes new partition state entries.
 func (s *EtcdStore) CreatePartitions(ctx context.Context, topic string, partitionCount int32) error {
+	if topic == "" || partitionCount <= 0 {
+		return ErrInvalidTopic
+	}
 	meta, err := s.metadata.Metadata(ctx, []string{topic})
 	if err != nil {
 		return err
@@ -428,7 +427,35 @@ func (s *EtcdStore) CreatePartitions(ctx context.Context, topic string, partitio
 		}
 		s.recordEtcdResult(nil)
 	}
-	return nil
+	return s.syncTopicConfigPartitions(ctx, topic, partitionCount)
+}
+
+// syncTopicConfigPartitions keeps a persisted topic configuration in step with
+// partition growth, so FetchTopicConfig does not report the old partition count.
+func (s *EtcdStore) syncTopicConfigPartitions(ctx context.Context, topic string, partitionCount int32) error {
+	ctx, cancel := context.WithTimeout(ctx, 3*time.Second)
+	defer cancel()
+	resp, err := s.client.Get(ctx, TopicConfigKey(topic))
+	if err != nil {
+		s.recordEtcdResult(err)
+		return err
+	}
+	s.recordEtcdResult(nil)
+	if len(resp.Kvs) == 0 {
+		return nil
+	}
+	cfg, err := DecodeTopicConfig(resp.Kvs[0].Value)
+	if err != nil {
+		return err
+	}
+	cfg.Partitions = partitionCount
+	payload, err := EncodeTopicConfig(cfg)
+	if err != nil {
+		return err
+	}
+	_, err = s.client.Put(ctx, TopicConfigKey(topic), string(payload))
+	s.recordEtcdResult(err)
+	return err
 }
 
 // CreateTopic currently updates only the in-memory snapshot; the operator is still responsible
@@ -600,7 +627,10 @@ func (s *EtcdStore) deleteConsumerOffsets(ctx context.Context, topic string) err
 	s.recordEtcdResult(nil)
 	for _, kv := range resp.Kvs {
 		key := string(kv.Key)
-		if strings.Contains(key, fmt.Sprintf("/offsets/%s/", topic)) {
+		// Match on the parsed topic: a substring test on "/offsets/<topic>/" also hits
+		// the offsets of every topic committed by a group that is itself named "offsets"
+		// when the topic "offsets" is deleted.
+		if _, keyTopic, _, ok := ParseConsumerOffsetKey(key); ok && keyTopic == topic {
 			delCtx, cancel := context.WithTimeout(ctx, 3*time.Second)
 			_, delErr := s.client.Delete(delCtx, key)
 			cancel()
